@@ -17,6 +17,7 @@ import (
 	"sort"
 	"strconv"
 	"strings"
+	"sync"
 	"time"
 	"unicode/utf8"
 )
@@ -168,6 +169,13 @@ func replayFailure(w *world, f *failure) (bool, string) {
 	pkgPath, fn := splitHarness(f.Harness)
 	race := f.Kind == "write" && strings.HasPrefix(f.Tag, "C05")
 	outcome, out := replayModel(pkgPath, fn, encodeModel(f.Model), currentTier, race)
+	if race && outcome != "race" {
+		// The race detector keeps a bounded access history per word and may miss a
+		// one-off write. A natively observed modification of state that concurrent
+		// queries read is an unsynchronised write/read pair, i.e. a data race by the
+		// Go memory model: confirm it through the snapshot comparison instead.
+		outcome, out = replayModel(pkgPath, fn, encodeModel(f.Model), currentTier, false)
+	}
 	return outcomeConfirms(f.Kind, f.Tag, outcome), outcome + "\n" + tailLines(out, 25)
 }
 
@@ -176,10 +184,12 @@ func outcomeConfirms(kind, tag, outcome string) bool {
 	case "assert":
 		return outcome == "assert:"+tag
 	case "write":
-		if strings.HasPrefix(tag, "C05") {
-			return outcome == "race"
+		if outcome == "race" {
+			return true
 		}
-		return strings.HasPrefix(outcome, "assert:") && strings.Contains(outcome, strings.SplitN(tag, ":", 2)[0])
+		// "C04:hover-writes:store" / "C05:hover-writes:store" -> "hover-writes"
+		parts := strings.Split(tag, ":")
+		return len(parts) >= 2 && strings.HasPrefix(outcome, "assert:C0") && strings.Contains(outcome, ":"+parts[1])
 	default: // panic, bounds, nil-deref, ...
 		return outcome == "panic"
 	}
@@ -366,6 +376,7 @@ func cmdCheck(args []string) {
 	funcs := map[string]int{}
 	var sv solverStats
 	var hsum []interface{}
+	var allFails []*failure
 	vacuous := []string{}
 	for _, r := range results {
 		totals["paths"] += r.Paths
@@ -398,7 +409,10 @@ func cmdCheck(args []string) {
 		hsum = append(hsum, map[string]interface{}{"harness": r.Name, "paths": r.Paths, "path_end_status": r.Status, "decisions": r.Decisions, "obligations": r.Obligations, "discharged": r.Discharged, "solver_queries": r.Solver.Queries, "budget_hit": r.BudgetHit})
 		// vacuity guard: every harness must reach its end on some path, and the witness must replay natively
 		if _, ok := r.Witness["end"]; !ok {
-			vacuous = append(vacuous, r.Name)
+			// a harness whose every path ends in a candidate violation is not vacuous: it is failing
+			if len(r.Failures) == 0 {
+				vacuous = append(vacuous, r.Name)
+			}
 		} else if *tier == "thorough" || len(results) <= 40 {
 			pkgPath, fn := splitHarness(r.Name)
 			outcome, out := replayModel(pkgPath, fn, encodeModel(r.Witness["end"]), *tier, false)
@@ -414,39 +428,90 @@ func cmdCheck(args []string) {
 			}
 		}
 		for _, f := range r.Failures {
-			if !failureServes(f, id) {
-				continue
+			if failureServes(f, id) {
+				allFails = append(allFails, f)
 			}
-			ident := failureIdent(f)
-			confirmed, out := replayFailure(w, f)
-			replays++
-			smp := map[string]interface{}{"harness": f.Harness, "kind": f.Kind, "tag": f.Tag, "where": f.Where, "model": encodeModel(f.Model), "native_replay_confirmed": confirmed}
-			if len(samples) < 12 {
-				samples = append(samples, smp)
-			}
-			if !confirmed {
-				unconfirmed = append(unconfirmed, ident+" => "+strings.SplitN(out, "\n", 2)[0])
-				continue
-			}
-			isKnown := false
-			for _, kf := range known {
-				if kf.Property == id && strings.Contains(ident, kf.Match) {
-					isKnown = true
-					confirmedKnown = append(confirmedKnown, kf.Match+" "+kf.Text)
-					break
-				}
-			}
-			if isKnown {
-				continue
-			}
-			pkgPath, fn := splitHarness(f.Harness)
-			rp := filepath.Join(verifRoot, "out", "replay", fmt.Sprintf("%s-%d.json", id, len(violations)))
-			writeJSON(rp, replayFile{Property: id, Harness: f.Harness, Pkg: pkgPath, Func: fn, Kind: f.Kind, Tag: f.Tag, Where: f.Where,
-				Msg: f.Msg, Model: encodeModel(f.Model), Tier: *tier, Stack: f.Stack})
-			violations = append(violations, rp)
-			fmt.Printf("VIOLATION property=%s replay=%s\n", id, rp)
-			fmt.Printf("  %s %s at %s (%s) %s\n", f.Kind, f.Tag, f.Where, f.Harness, f.Msg)
 		}
+	}
+	// Replays: candidates that match a listed known finding are replayed one by one
+	// (each listed finding is printed only if it still reproduces); the others are
+	// grouped by (kind, tag, site) and at most three of a group are replayed — one
+	// confirmed member makes the group a violation. Replays run eight at a time.
+	type job struct {
+		f        *failure
+		known    *knownFinding
+		group    string
+		done     bool
+		ok       bool
+		out      string
+		skipped  bool
+	}
+	var jobs []*job
+	perGroup := map[string]int{}
+	for _, f := range allFails {
+		j := &job{f: f, group: f.Kind + "|" + f.Tag + "|" + f.Where}
+		ident := failureIdent(f)
+		for i := range known {
+			if known[i].Property == id && strings.Contains(ident, known[i].Match) {
+				j.known = &known[i]
+				break
+			}
+		}
+		if j.known == nil {
+			perGroup[j.group]++
+			if perGroup[j.group] > 3 {
+				j.skipped = true
+			}
+		}
+		jobs = append(jobs, j)
+	}
+	sem := make(chan struct{}, 8)
+	var rwg sync.WaitGroup
+	for _, j := range jobs {
+		if j.skipped {
+			continue
+		}
+		rwg.Add(1)
+		sem <- struct{}{}
+		go func(j *job) {
+			defer rwg.Done()
+			defer func() { <-sem }()
+			j.ok, j.out = replayFailure(w, j.f)
+			j.done = true
+		}(j)
+	}
+	rwg.Wait()
+	groupViolated := map[string]bool{}
+	for _, j := range jobs {
+		f := j.f
+		ident := failureIdent(f)
+		if j.skipped {
+			totals["same_site_candidates_not_replayed"]++
+			continue
+		}
+		replays++
+		if len(samples) < 12 {
+			samples = append(samples, map[string]interface{}{"harness": f.Harness, "kind": f.Kind, "tag": f.Tag, "where": f.Where, "model": encodeModel(f.Model), "native_replay_confirmed": j.ok})
+		}
+		if !j.ok {
+			unconfirmed = append(unconfirmed, ident+" => "+strings.SplitN(j.out, "\n", 2)[0])
+			continue
+		}
+		if j.known != nil {
+			confirmedKnown = append(confirmedKnown, j.known.Match+" "+j.known.Text)
+			continue
+		}
+		if groupViolated[j.group] {
+			continue
+		}
+		groupViolated[j.group] = true
+		pkgPath, fn := splitHarness(f.Harness)
+		rp := filepath.Join(verifRoot, "out", "replay", fmt.Sprintf("%s-%d.json", id, len(violations)))
+		writeJSON(rp, replayFile{Property: id, Harness: f.Harness, Pkg: pkgPath, Func: fn, Kind: f.Kind, Tag: f.Tag, Where: f.Where,
+			Msg: f.Msg, Model: encodeModel(f.Model), Tier: *tier, Stack: f.Stack})
+		violations = append(violations, rp)
+		fmt.Printf("VIOLATION property=%s replay=%s\n", id, rp)
+		fmt.Printf("  %s %s at %s (%s) %s\n", f.Kind, f.Tag, f.Where, f.Harness, f.Msg)
 	}
 	seenK := map[string]bool{}
 	for _, k := range confirmedKnown {
